@@ -26,7 +26,7 @@ REQUIRED_REACH = {
     "core/functional.py": ["scale_elementwise", "scale_elementwise.<locals>.scaled_f"],
     "docs.py": ["_validate.<locals>._validate_args_supported"],
 }
-MIN_NONTRIVIAL = {"quick": 300, "thorough": 5000}
+MIN_NONTRIVIAL = {"quick": 300, "thorough": 40000}
 
 REJECTS = [
     ("silu", "inplace"), ("dropout", "inplace"), ("add", "alpha_int"), ("add", "alpha_float"),
